@@ -173,7 +173,7 @@ func check(c *core.Ctx, cs c02Case) (nontrivial bool, bucket string) {
 	}
 	if cs.Layout {
 		// the thrift reader of the specification decoder is quadratic in the footer length: very large footers are left out
-		if flen := int(uint32(data[len(data)-8]) | uint32(data[len(data)-7])<<8 | uint32(data[len(data)-6])<<16 | uint32(data[len(data)-5])<<24); flen > c.N(24000, 200000) {
+		if flen := int(uint32(data[len(data)-8]) | uint32(data[len(data)-7])<<8 | uint32(data[len(data)-6])<<16 | uint32(data[len(data)-5])<<24); flen > c.N(24000, 60000) {
 			bucket += "/layout-skipped-large-footer"
 		} else {
 			bucket += "/" + layoutCheck(c, cs, b, data, groups)
@@ -435,7 +435,7 @@ func runCase(c *core.Ctx, cs c02Case, sample bool) {
 }
 
 func run(c *core.Ctx) {
-	c.Res.Rule = "files written from generated schemas / value trees / options / Write-Flush histories (see C01), directly or re-written through Writer.WriteRowGroup with equal or different options (copy, re-encode paths); codecs UNCOMPRESSED and SNAPPY (the codecs the Gallina decoder implements). Each file's raw bytes go to the extracted specification decoder, which must (1) parse them, (2) find every claimed offset, size, count, checksum, encoding list and row boundary consistent with the bytes (discrepancy codes), (3) return, per row group and column, exactly the repetition levels, definition levels and values that were written. Non-trivial = at least 2 rows; distinct by the JSON of the case."
+	c.Res.Rule = "files written from generated schemas / value trees / options / Write-Flush histories (see C01), directly or re-written through Writer.WriteRowGroup with equal or different options (copy, re-encode paths); codecs UNCOMPRESSED and SNAPPY (the codecs the Gallina decoder implements). Each file's raw bytes go to the extracted specification decoder, which must (1) parse them, (2) find every claimed offset, size, count, checksum, encoding list and row boundary consistent with the bytes (discrepancy codes), (3) return, per row group and column, exactly the repetition levels, definition levels and values that were written. (4) Layout: the page structure observed in the file (raw page headers and bodies found by walking each chunk with the library's thrift decoder, rows per data page as counted by the specification decoder, bloom filter / column index sections, and the footer for the fields that are not offsets, sizes or counts) is given to the model writer File/Layout.v (offset accounting of writer.go; C02_layout_sound_*: its recorded offsets and sizes provably describe its bytes), which must reproduce the library's file byte for byte; a differing offset / size / count of the metadata is the property failing (layout:<field>), any other byte difference a model mismatch; the bucket suffix says whether the decidable hypothesis file_ok of the layout theorems held for the file (footers above 24 kB are left out in the quick tier: the Gallina thrift reader is quadratic). Non-trivial = at least 2 rows; distinct by the JSON of the case."
 	n := c.N(250, 4000)
 	for i := 0; i < n; i++ {
 		cs := c02Case{Gen: gen.Case{Seed: c.Seed*999983 + int64(i), NRows: []int{0, 1, 5, 40, 130, 300}[c.Rng.Intn(6)], MaxDepth: 1 + c.Rng.Intn(3), MaxFields: 1 + c.Rng.Intn(5), Codecs: []string{"none", "snappy"}, NullBias: c.Rng.Intn(8)}}
